@@ -92,6 +92,24 @@ def comb_split(recipe=(1, 2), piat=(8, 8), iiat=(2, 2, 2, 2, 2), cpd=(4,), spd=(
     return {"Q": Q, "T": T, "family": "combiner-splitter", "expect": "valid", "drains": False, "nodes": nodes, "edges": edges}
 
 
+def comb_comb(r1=(1, 1), r2=(1, 2), piat=(6, 6, 6), iat_a=(2, 2, 2), iat_b=(1, 1, 1, 1, 1, 1), pd1=(2,), pd2=(3,), spd=(1,),
+              caps=(2, 3, 4, 2, 2, 6), split=True, T=240):
+    """two combiners in series: the pallet that reaches the second combiner already carries the items packed by the
+    first one (then optionally a splitter that unpacks everything)"""
+    nodes = [_n("source", blocking=True, iat=list(piat), kind="pallet"), _n("source", blocking=True, iat=list(iat_a)),
+             _n("source", blocking=True, iat=list(iat_b)),
+             _n("combiner", recipe=list(r1), pd=list(pd1)), _n("combiner", recipe=list(r2), pd=list(pd2))]
+    edges = [_e("buffer", 0, 3, cap=caps[0]), _e("buffer", 1, 3, cap=caps[1]),
+             _e("buffer", 3, 4, cap=caps[3]), _e("buffer", 2, 4, cap=caps[2])]
+    if split:
+        nodes += [_n("splitter", pd=list(spd)), _n("sink")]
+        edges += [_e("buffer", 4, 5, cap=caps[4]), _e("buffer", 5, 6, cap=caps[5])]
+    else:
+        nodes += [_n("sink")]
+        edges += [_e("buffer", 4, 5, cap=caps[4])]
+    return {"Q": Q, "T": T, "family": "combiner-combiner", "expect": "valid", "drains": False, "nodes": nodes, "edges": edges}
+
+
 def pallet_split(mode="LIFO", piat=(1, 1, 1, 1, 1, 1), spd=(4,), cap=4, spb=True, T=160, spin="FIRST_AVAILABLE", delay=0,
                  out_cap=3, out_delay=0, spout="FIRST_AVAILABLE"):
     """pallet source -> buffer (LIFO/FIFO) -> splitter -> buffer -> sink: the splitter reserves the next pallet
@@ -268,6 +286,8 @@ def families(tier):
         C.append(fleet_mid(pout=pout, pin2=pin2, iat1=(4,) * 12, iat2=(4,) * 12, pd=(2,), pd2=(4,), fcap=3, fdelay=8, transit=1, T=200))
         C.append(fleet_mid(pout=pout, pin2=pin2, iat1=(4,) * 12, iat2=(4,) * 12, pd=(2,), pd2=(4,), fcap=2, fdelay=12, transit=2, T=200))
         C.append(fleet_mid(pout=pout, pin2=pin2, wc=3, iat1=(1,) * 10, iat2=(1,) * 10, pd=(3,), fcap=4, fdelay=12, transit=2, pd2=(2,)))
+    for r1, r2, split in [((1, 1), (1, 2), True), ((1, 2), (1, 1), True), ((1, 1), (1, 2), False), ((1, 3), (1, 3), True)]:
+        C.append(comb_comb(r1=r1, r2=r2, split=split, iat_a=(2,) * (3 * r1[1]), iat_b=(1,) * (3 * r2[1])))
     for mode, spin, delay in itertools.product(["LIFO", "FIFO"], ["FIRST_AVAILABLE", "ROUND_ROBIN", 0], [0, 2]):
         C.append(pallet_split(mode=mode, spin=spin, delay=delay))
     C.append(pallet_split(mode="LIFO", piat=(0, 0, 0, 3, 0, 0), spd=(2, 5)))
